@@ -12,9 +12,13 @@ from .heap import HeapSeq, HObj, obj_sort
 
 
 class LoopInv:
-    def __init__(self, inv, havoc=(), decreases=None, ghost_update=None):
+    def __init__(self, inv, havoc=(), decreases=None, ghost_update=None, fresh=None):
         self.inv = [inv] if isinstance(inv, str) else list(inv)
-        self.havoc = list(havoc)
+        # "name" = local name; "a.b.c" = attribute c of the object a.b (object state changed by the body)
+        self.havoc = [h for h in havoc if "." not in h]
+        self.havoc_attrs = [h for h in havoc if "." in h]
+        # names that are UNBOUND at loop entry and assigned in the body: {"name": "bool" | "int" | "real"}
+        self.fresh = dict(fresh or {})
         self.decreases = decreases
         self.ghost_update = ghost_update
         self._parsed = None
@@ -126,7 +130,69 @@ def eval_spec(I, st, expr_ast, what):
     return z3.Or(*parts)
 
 
-def run_invariant_loop(I, st, node, linv, qual, ordinal, head, after_body, body_stmts, orelse, pre_bind=None, auto_inv=None):
+def _same_val(a, b):
+    if a is b:
+        return True
+    if is_z3(a) or is_z3(b):
+        return is_z3(a) and is_z3(b) and a.eq(b)
+    if isinstance(a, (tuple, list)) and isinstance(b, (tuple, list)):
+        return type(a) is type(b) and len(a) == len(b) and all(_same_val(x, y) for x, y in zip(a, b))
+    if isinstance(a, dict) and isinstance(b, dict):
+        return list(a.keys()) == list(b.keys()) and all(_same_val(a[k], b[k]) for k in a)
+    try:
+        return type(a) is type(b) and bool(a == b)
+    except Exception:
+        return False
+
+
+def _entry_sig(e):
+    """contents of one store entry (for the frame check of invariant loops)"""
+    if isinstance(e, SymListE):
+        return (e.length, e.arr)
+    if isinstance(e, ObjE):
+        return dict(e.attrs)
+    if isinstance(e, DictE):
+        return dict(e.items)
+    for a in ("items", "data"):
+        if hasattr(e, a):
+            return list(getattr(e, a))
+    return None
+
+
+def _frame_check(st_head, sig, heap0, st_after, allowed, tag, allowed_attrs=()):
+    """An invariant loop havocs LOCAL NAMES only.  If the body changed an object / container that existed at the loop
+    head (attribute store, list append, dict item, abstract heap field) the exit state would keep the stale entry
+    value: refuse instead of continuing unsoundly."""
+    for k, before in sig.items():
+        if k in allowed or before is None:
+            continue
+        e = st_after.store.get(k)
+        if e is None:
+            continue
+        after = _entry_sig(e)
+        if isinstance(e, ObjE) and allowed_attrs:
+            before = {a: x for a, x in before.items() if (k, a) not in allowed_attrs}
+            after = {a: x for a, x in after.items() if (k, a) not in allowed_attrs}
+        if not _same_val(before, after):
+            raise Unsupported("%s: the loop body modifies object state that an invariant loop does not havoc (store entry %s of kind %s)"
+                              % (tag, k, getattr(e, "kind", "?")))
+    for f, arr in heap0.items():
+        a1 = st_after.heap.get(f)
+        if a1 is not None and not _same_val(arr, a1):
+            raise Unsupported("%s: the loop body modifies heap field %s that an invariant loop does not havoc" % (tag, f))
+
+
+def _kind_ok(v, kind):
+    if kind == "bool":
+        return is_boollike(v)
+    if kind == "int":
+        return is_intlike(v) and not is_boollike(v)
+    if kind == "real":
+        return is_reallike(v) or (is_intlike(v) and not is_boollike(v))
+    return False
+
+
+def run_invariant_loop(I, st, node, linv, qual, ordinal, head, after_body, body_stmts, orelse, pre_bind=None, auto_inv=None, counter=None):
     """Generic invariant-based loop.
 
     head(st)  -> iterable of (st, True|False|Exc): loop continues?   (may bind the loop variable)
@@ -170,9 +236,38 @@ def run_invariant_loop(I, st, node, linv, qual, ordinal, head, after_body, body_
             st.frame.vars[n] = havoc_value(I, st, st.frame.vars[n], n)
     if linv.ghost_update:
         linv.ghost_update(I, st, "havoc")
-    assume_inv(st)
+    # object state declared as changed by the body: "a.b.c" -> attribute c of the object a.b gets an arbitrary value
+    allowed_attrs = set()
+    for path in linv.havoc_attrs:
+        prefix, attr = path.rsplit(".", 1)
+        outs = list(I.ev(ast.parse(prefix, mode="eval").body, st))
+        if len(outs) != 1 or not isinstance(outs[0][1], Ref) or st.get(outs[0][1]).kind != "obj":
+            raise Unsupported("havoc path %s does not name an attribute of a plain object" % path)
+        e = st.get(outs[0][1])
+        if attr not in e.attrs:
+            raise Unsupported("havoc path %s: no such instance attribute" % path)
+        e.attrs[attr] = havoc_value(I, st, e.attrs[attr], path.replace(".", "_"))
+        allowed_attrs.add((outs[0][1].id, attr))
+    starts = [st]
+    if linv.fresh:
+        # names unbound at entry: after zero iterations still unbound, after >= 1 iterations an arbitrary value of the
+        # declared kind (the kind is checked whenever the body completes)
+        if counter is None:
+            raise Unsupported("`fresh` names need a counted for-loop")
+        cname, lo = counter
+        for n in linv.fresh:
+            if n in st.frame.vars:
+                raise Unsupported("`fresh` name %s is already bound at loop entry" % n)
+        zero = st.fork()
+        zero.frame.vars[cname] = lo
+        st.pc.append(z3val(st.frame.vars[cname]) > z3val(lo))
+        for n, kind in linv.fresh.items():
+            st.frame.vars[n] = I.fresh(kind, n)
+        starts = [zero, st]
+    for s0 in starts:
+        assume_inv(s0)
     dec0 = None
-    for st1, go in list(head(st)):
+    for st1, go in [x for s0 in starts for x in list(head(s0))]:
         if isinstance(go, Exc):
             yield st1, ("raise", go.exc)
             continue
@@ -186,8 +281,20 @@ def run_invariant_loop(I, st, node, linv, qual, ordinal, head, after_body, body_
             if pre_bind:
                 pre_bind(st1)
             d0 = list(I.ev(ast.parse(linv.decreases, mode="eval").body, st1))[0][1]
+        sig0 = {k: _entry_sig(e) for k, e in st1.store.items()}
+        heap0 = dict(st1.heap)
+        allowed = set()
+        for n in names:
+            v = st1.frame.vars.get(n)
+            if isinstance(v, Ref) and st1.get(v).kind == "symlist":
+                allowed.add(v.id)  # havocked above through its name
         for st2, ctrl in list(I.ex_block(body_stmts, st1)):
+            if not linv.ghost_update:
+                _frame_check(st1, sig0, heap0, st2, allowed, tag, allowed_attrs)
             if ctrl is None or ctrl[0] == "continue":
+                for n, kind in linv.fresh.items():
+                    if n not in st2.frame.vars or not _kind_ok(st2.frame.vars[n], kind):
+                        raise Unsupported("`fresh` name %s is not a %s after the loop body" % (n, kind))
                 after_body(st2)
                 check_inv(st2, "inv-preserved")
                 if linv.decreases:
@@ -395,7 +502,8 @@ def invariant_for(I, st, node, sym, linv, qual, ordinal):
         # list it in the havoc set
         linv.havoc = orig_havoc + [cname]
         try:
-            yield from run_invariant_loop(I, st, node, linv, qual, ordinal, head, after_body, node.body, node.orelse, pre_bind, auto_inv)
+            yield from run_invariant_loop(I, st, node, linv, qual, ordinal, head, after_body, node.body, node.orelse, pre_bind, auto_inv,
+                                          counter=(cname, lo))
         finally:
             linv.havoc = orig_havoc
 
